@@ -143,8 +143,7 @@ def make_model(rng, big=False):
         mk_ = {"copy": lambda: M0_.copy(), "ctor": lambda: type(M0_)(M0_), "add-empty": lambda: M0_ + {}}[how_]
         M0_ = M
         l0_ = labs[0]
-        n1_, n2_, n3_ = [("nv%d" % i_) if isinstance(l0_, str) else (("nv", i_) if isinstance(l0_, tuple) else
-                                                                   ((1000.5 + i_) if isinstance(l0_, float) else 1000 + i_)) for i_ in (1, 2, 3)]
+        n1_, n2_, n3_ = [gen.fresh_like(l0_, i_) for i_ in (1, 2, 3)]
         try:
             first_ = mk_()
             first_[(n1_,)] += 3
@@ -339,6 +338,13 @@ def check_once(ctx, rng, cname, M, permuted, big):
             pairs |= {(b, a) for a, b in list(pairs)[:1]}        # the same pair in both orientations is a legitimate hint set
     w = {"class": cname, "terms": dict(M), "mapping": M.mapping, "form": form, "deg": deg,
          "lam": lk, "lam_value": None if callable(lam) else lam, "pairs": pairs}
+    if rng.random() < 0.25:
+        # the caller works with what the accessors handed out (documented as copies): renumbers one, empties the other
+        t1_, t2_ = M.mapping, M.reverse_mapping
+        for k_ in list(t1_):
+            t1_[k_] = t1_[k_] + 1
+        t2_.clear()
+        ctx.cat("mapping-copies-edited-by-caller-before-conversion")
     snap = (dict(M), M.mapping)
     ok, D = ctx.call("to_" + form, oracles.call_form, M, form, deg, lam, pairs, _w=w)
     if not ok:
